@@ -145,6 +145,7 @@ func Run(ctx *core.Ctx) {
 
 	Judge(ctx, cases, obs)
 	checkGoldensReal(ctx)
+	checkWatchedRecompile(ctx)
 }
 
 func repsFor(ctx *core.Ctx, c *MsgCase) int {
